@@ -121,34 +121,47 @@ def theorem_names(pid):
     return re.findall(r"^theorem\s+([A-Za-z0-9_'.]+)", src, flags=re.M)
 
 
-def regenerate_consts():
-    """the translator half of the tie (tools/extract_consts.py): DdsModel/SrcConsts.lean is regenerated from the
-    working tree on every run, so the theorems that mention tuning constants are re-checked for the current values.
-    Returns a failure string or None. In ALT mode (mutation runs) a tree whose constants differ from /verif's
-    gets a private copy of the Lean project under DDSV_OUT, so concurrent runs do not disturb each other."""
+# the translator half of the tie: Lean modules regenerated from the library source on every run
+GENERATED = [("extract_consts.py", "SrcConsts.lean"),     # tuning constants (C05, C07, C14, C01)
+             ("extract_tables.py", "SrcTables.lean")]     # format / header tables (C09, C18, C19, C01, ...)
+
+
+def regenerate_sources():
+    """the translator half of the tie: DdsModel/SrcConsts.lean (tools/extract_consts.py: tuning constants) and
+    DdsModel/SrcTables.lean (tools/extract_tables.py: the format / header tables) are regenerated from the working
+    tree on every run, so the theorems that mention them are re-checked for the current values / rows. A file is
+    rewritten only when its content changes (the unchanged tree stays a lake no-op). A translator that cannot parse
+    the source any more is a failure string (reported as a broken correspondence; the last generated file is kept).
+    Returns a failure string or None. In ALT mode (mutation runs) a tree whose constants or tables differ from
+    /verif's gets a private copy of the Lean project under DDSV_OUT, so concurrent runs do not disturb each other."""
     global LEAN, DRIVER
     repo = ALT_REPO or "/repo"
-    rc, out, err = sh([os.path.join(ROOT, "tools", "extract_consts.py"), repo])
-    if rc != 0:
-        return "translator tools/extract_consts.py: " + err.strip()[-300:]
-    path = os.path.join(LEAN, "DdsModel", "SrcConsts.lean")
-    cur = open(path).read() if os.path.exists(path) else ""
-    if out != cur:
+    fails, changed = [], {}
+    for tool, fname in GENERATED:
+        rc, out, err = sh([os.path.join(ROOT, "tools", tool), repo])
+        if rc != 0:
+            fails.append(f"translator tools/{tool}: " + err.strip()[-300:])
+            continue
+        path = os.path.join(LEAN, "DdsModel", fname)
+        cur = open(path).read() if os.path.exists(path) else ""
+        if out != cur:
+            changed[fname] = out
+    if changed:
         if ALT_REPO:
             dst = os.path.join(OUT, "lean", "DdsModel")
             os.makedirs(dst, exist_ok=True)
             subprocess.run(["rsync", "-a", "--delete", LEAN + "/", dst + "/"], check=True)
             LEAN = dst
             DRIVER = os.path.join(LEAN, ".lake", "build", "bin", "driver")
-            path = os.path.join(LEAN, "DdsModel", "SrcConsts.lean")
-        open(path, "w").write(out)
-    return None
+        for fname, out in changed.items():
+            open(os.path.join(LEAN, "DdsModel", fname), "w").write(out)
+    return "; ".join(fails) or None
 
 
 def proofs(pid, tier):
     """returns dict(obligations, discharged, failures[], axioms{}, checker_cmd)"""
     res = {"obligations": 0, "discharged": 0, "failures": [], "axioms": {}, "theorems": []}
-    tr = regenerate_consts()
+    tr = regenerate_sources()
     mods = [f"DdsModel.Theorems.{pid}", "driver"]
     cmd = ["lake", "build"] + mods
     res["checker_cmd"] = "cd lean/DdsModel && " + " ".join(cmd) + \
@@ -442,6 +455,8 @@ def run_one(pid, report_pid, tier, seed, replay_payload):
             "case": cases[n], "oracle": oracle[n],
             "impl": {p: impl[p].get(n) for p in profiles}, "model": model.get(n),
             "all_failing_cases": [cases[m] for _, m in violations[:50]],
+            # a theorem that no longer builds for the regenerated constants / tables is named beside the failing input
+            **({"proof_failures": [x[-1500:] for x in pr["failures"]]} if pr["failures"] else {}),
             "replay_cmd": f"./check.py {report_pid} --replay <this file>",
         })
         out_lines.append(f"VIOLATION property={report_pid} replay={path}")
